@@ -1,6 +1,6 @@
 (* Proofs about the accumulation model (C11): closed form of [accumulate], wrapping, permutation of
    resources lists at any depth, nesting of prefixes and suffixes. *)
-From KV Require Import Res.Compose Res.LegacySortProofs.
+From KV Require Import Res.Compose Res.LegacySortProofs Res.LegacyExact.
 From Coq Require Import Sorting.Permutation Btauto.
 Open Scope string_scope.
 Open Scope list_scope.
@@ -54,6 +54,7 @@ Proof. destruct i; auto. Qed.
 Section Proofs.
   Variable cs : gvk -> bool.
   Variable pfx_fs sfx_fs pfx_skip sfx_skip : list fieldspec.
+  Variable guarded : bool.
 
   Notation ideq := (id_equals cs).
   Notation nocoll := (nocoll_b cs).
@@ -63,7 +64,7 @@ Section Proofs.
   Notation acc := (accumulate cs pfx_fs sfx_fs pfx_skip sfx_skip).
   Notation flt := (flat pfx_fs sfx_fs pfx_skip sfx_skip).
   Notation ok := (okb cs pfx_fs sfx_fs pfx_skip sfx_skip).
-  Notation bld := (build cs pfx_fs sfx_fs pfx_skip sfx_skip).
+  Notation bld := (build cs pfx_fs sfx_fs pfx_skip sfx_skip guarded).
 
   (* ---------- id equality ---------- *)
 
@@ -445,23 +446,100 @@ Section Proofs.
     eapply perm_trans; [apply isort_perm|]. eapply perm_trans; [eauto|]. apply Permutation_sym, isort_perm.
   Qed.
 
-  (* C11_permute_legacy: with the legacy order the output is the same list *)
-  Theorem build_permute_legacy : forall first last t t' out,
-    namespace_isolated first last = true -> tperm t t' ->
-    bld (SortLegacy first last) t = Ok out -> valid_ids out ->
+  (* C11_permute_legacy at full strength: under the EXACT guard on the output id set (the comparator is a strict
+     total order on it) the output is the same list - no hypothesis on the ids or on the order lists *)
+  Theorem build_permute_legacy_guard : forall first last t t' out,
+    tperm t t' ->
+    bld (SortLegacy first last) t = Ok out -> total_on_g_b guarded first last out = true ->
     bld (SortLegacy first last) t' = Ok out.
   Proof.
-    intros first last t t' out Iso H B V. unfold build in *. rewrite <- (tperm_empty _ _ H).
+    intros first last t t' out H B Gd. unfold build in *. rewrite <- (tperm_empty _ _ H).
     destruct (is_empty_kust t && has_sort_field (SortLegacy first last)); auto.
     pose proof (permute_multiset _ _ H) as P.
     destruct (acc t) as [o1| | |] eqn:A1; simpl in B; try discriminate.
     destruct (acc t') as [o2| | |]; try contradiction. simpl.
     inversion B as [B']. f_equal.
     assert (Pm : Permutation (map r_cur o1) (map r_cur o2)) by (apply Permutation_map; auto).
-    symmetry. apply sort_legacy_canonical; auto.
-    - unfold valid_ids in *. rewrite Forall_forall in *. intros x I. apply V. rewrite <- B'.
-      eapply Permutation_in; [apply Permutation_sym, isort_perm|]. auto.
-    - eapply accumulate_nodup; eauto.
+    rewrite total_on_g_b_eq in Gd. rewrite <- B' in Gd. unfold sort_legacy_g in *.
+    rewrite (total_b_perm _ _ _ _ (isort_perm _ _ (map r_cur o1))) in Gd.
+    apply total_b_iff in Gd. destruct Gd as [N T].
+    symmetry. apply isort_perm_invariant; auto.
+  Qed.
+
+  (* C11_permute_legacy: valid output ids, and either the source carries the rank guard or the lists isolate Namespace *)
+  Theorem build_permute_legacy : forall first last t t' out,
+    guarded = true \/ namespace_isolated first last = true -> tperm t t' ->
+    bld (SortLegacy first last) t = Ok out -> valid_ids out ->
+    bld (SortLegacy first last) t' = Ok out.
+  Proof.
+    intros first last t t' out Iso H B V.
+    eapply build_permute_legacy_guard; eauto.
+    apply total_on_g_b_exact. split.
+    - unfold build in B.
+      destruct (is_empty_kust t && has_sort_field (SortLegacy first last)).
+      + inversion B. constructor.
+      + destruct (acc t) as [o1| | |] eqn:A1; simpl in B; try discriminate. inversion B.
+        eapply Permutation_NoDup; [apply Permutation_sym, isort_perm|]. eapply accumulate_nodup; eauto.
+    - apply legacy_g_total_on; auto.
+  Qed.
+
+  (* ---------- arbitrary permutations at EVERY layer at once ---------- *)
+
+  (* every resources list of the tree, at every depth, is permuted (entries first rewritten recursively) *)
+  Inductive tpermd : tree -> tree -> Prop :=
+  | tpd_file : forall docs, tpermd (File docs) (File docs)
+  | tpd_dir : forall ents ents1 ents' p s,
+      Forall2 tpermd ents ents1 -> Permutation ents1 ents' -> tpermd (Dir ents p s) (Dir ents' p s).
+
+  Lemma tperm_pointwise : forall p s l l1, Forall2 tperm l l1 ->
+    forall pre, tperm (Dir (pre ++ l) p s) (Dir (pre ++ l1) p s).
+  Proof.
+    induction 1 as [|x y l l1 Hxy Hl IH]; intros pre.
+    - apply tp_refl.
+    - eapply tp_trans.
+      + apply tp_inside. exact Hxy.
+      + specialize (IH (pre ++ [y])). rewrite <- !app_assoc in IH. exact IH.
+  Qed.
+
+  Theorem tpermd_tperm : forall t t', tpermd t t' -> tperm t t'.
+  Proof.
+    induction t using tree_ind'; intros t' Hd.
+    - inversion Hd; subst. apply tp_refl.
+    - inversion Hd as [|? ents1 ents' ? ? F P]; subst.
+      eapply tp_trans.
+      + apply (tperm_pointwise p s ents ents1) with (pre := []).
+        clear -H F. induction F as [|x y l l1 Hxy Hl IH]; constructor.
+        * inversion H; subst. auto.
+        * inversion H; subst. auto.
+      + apply tp_here. exact P.
+  Qed.
+
+  (* ---------- the FIFO order law ---------- *)
+
+  Lemma flat_org : forall t, map r_org (flt t) = dfs_docs t.
+  Proof.
+    induction t using tree_ind'; simpl.
+    - rewrite map_map. simpl. apply map_id.
+    - rewrite runt_map, map_map.
+      rewrite (map_ext (fun r => r_org (adds s (addp p r))) r_org) by (intros; rewrite adds_org, addp_org; auto).
+      rewrite concat_map, map_map. f_equal. apply map_ext_in. intros e Ie.
+      rewrite Forall_forall in H. auto.
+  Qed.
+
+  (* `sortOptions: fifo` (and no sortOptions): the output documents are the loaded documents in depth-first
+     load order - the i-th output is the (renamed) i-th document of the traversal *)
+  Theorem fifo_order : forall o t out, o = SortFifo \/ o = SortNone -> bld o t = Ok out ->
+    exists res, out = map r_cur res /\ map r_org res = dfs_docs t.
+  Proof.
+    intros o t out Ho B. exists (flt t). split; [|apply flat_org].
+    unfold build in B.
+    destruct (is_empty_kust t && has_sort_field o) eqn:E.
+    - inversion B; subst. apply andb_true_iff in E. destruct E as [E _].
+      destruct t as [|[|? ?] p s]; simpl in E; try discriminate.
+      apply andb_true_iff in E. destruct E as [Ep Es]. apply String.eqb_eq in Ep, Es. subst. reflexivity.
+    - destruct (acc t) as [res| | |] eqn:A; simpl in B; try discriminate.
+      destruct (accumulate_ok _ _ A) as [_ ->].
+      destruct Ho as [->| ->]; inversion B; auto.
   Qed.
 
   (* ---------- nesting of prefixes and suffixes ---------- *)
